@@ -6,6 +6,7 @@
 From Coq Require Import List NArith ZArith Bool String.
 From Verif Require Import Sni.SchedSkel Sni.Registry Sni.RegistryProofs Sni.RegistryGen Gen.ServerSkel.
 From Verif Require Import Sni.RegistryKick Sni.RegistryKickProofs Sni.RegistryKey Sni.RegistryBracket.
+From Verif Require Sni.RegistryCallbacks.
 Import ListNotations.
 Local Open Scope N_scope.
 
@@ -245,6 +246,58 @@ Theorem C15_early_return_refuted :
   end.
 Proof. exact early_return_refuted. Qed.
 Print Assumptions C15_early_return_refuted.
+
+(** ** Notifications under every callback configuration (Sni/RegistryCallbacks.v) *)
+
+(** In the source the deferred disconnect call is guarded by OnDisconnect
+    being configured and by nothing else. *)
+Theorem C15_disconnect_defer_guard :
+  gen_disconnect_defer_guard = [("deferred", ["s.onDisconnect != nil"])]%string.
+Proof. exact gen_disconnect_defer_guard_ok. Qed.
+Print Assumptions C15_disconnect_defer_guard.
+
+(** With that guard, for every configuration (hc: OnConnect configured, hd:
+    OnDisconnect configured) and any connections that were accepted and have
+    ended: exactly one disconnect per connection iff OnDisconnect is
+    configured, exactly one connect per connection iff OnConnect is. *)
+Theorem C15_callback_balance : forall hc hd conns,
+  List.length (filter RegistryCallbacks.is_disconnect
+                 (RegistryCallbacks.history RegistryCallbacks.source_guard hc hd conns))
+    = (if hd then List.length conns else 0%nat) /\
+  List.length (filter RegistryCallbacks.is_connect
+                 (RegistryCallbacks.history RegistryCallbacks.source_guard hc hd conns))
+    = (if hc then List.length conns else 0%nat).
+Proof. exact RegistryCallbacks.callback_balance. Qed.
+Print Assumptions C15_callback_balance.
+
+(** The session of the disconnect is the one OnConnect returned, 0 without OnConnect. *)
+Theorem C15_callback_sessions : forall hc hd n s,
+  RegistryCallbacks.notifications RegistryCallbacks.source_guard hc hd n s =
+    match hc, hd with
+    | true, true => [RegistryCallbacks.NConnect n s; RegistryCallbacks.NDisconnect n s]
+    | true, false => [RegistryCallbacks.NConnect n s]
+    | false, true => [RegistryCallbacks.NDisconnect n 0%Z]
+    | false, false => []
+    end.
+Proof. exact RegistryCallbacks.callback_sessions. Qed.
+Print Assumptions C15_callback_sessions.
+
+(** The seeded change C15-k, kept as a counter-model: the defer nested in the
+    OnConnect condition changes nothing with both callbacks, with neither, or
+    with OnConnect alone -- and with OnDisconnect alone three ended
+    connections produce no notification at all. *)
+Theorem C15_nested_disconnect_refuted :
+  (forall n s, RegistryCallbacks.notifications RegistryCallbacks.nested_guard true true n s
+               = RegistryCallbacks.notifications RegistryCallbacks.source_guard true true n s) /\
+  (forall n s, RegistryCallbacks.notifications RegistryCallbacks.nested_guard false false n s
+               = RegistryCallbacks.notifications RegistryCallbacks.source_guard false false n s) /\
+  (forall n s, RegistryCallbacks.notifications RegistryCallbacks.nested_guard true false n s
+               = RegistryCallbacks.notifications RegistryCallbacks.source_guard true false n s) /\
+  RegistryCallbacks.history RegistryCallbacks.nested_guard false true [(7, 1%Z); (7, 2%Z); (8, 3%Z)] = [] /\
+  RegistryCallbacks.history RegistryCallbacks.source_guard false true [(7, 1%Z); (7, 2%Z); (8, 3%Z)]
+    = [RegistryCallbacks.NDisconnect 7 0; RegistryCallbacks.NDisconnect 7 0; RegistryCallbacks.NDisconnect 8 0].
+Proof. exact RegistryCallbacks.nested_disconnect_refuted. Qed.
+Print Assumptions C15_nested_disconnect_refuted.
 
 (** ** The key of the registry is the name itself (Sni/RegistryKey.v) *)
 
